@@ -227,7 +227,7 @@ func init() {
 	}
 	random := &fw.Phase{
 		Name: "generated-manifests",
-		N:    fw.Fixed(6000, 100000),
+		N:    fw.Fixed(30000, 150000),
 		Run: func(env *fw.Env, idx int) fw.Result {
 			m := gen.RandomManifest(env.Rand(idx))
 			doc := m.JSON()
@@ -239,7 +239,7 @@ func init() {
 	}
 	mutated := &fw.Phase{
 		Name: "mutated-real-manifests",
-		N:    fw.Fixed(6000, 200000),
+		N:    fw.Fixed(30000, 300000),
 		Run: func(env *fw.Env, idx int) fw.Result {
 			rnd := env.Rand(idx)
 			real := c18Real(env)
